@@ -90,6 +90,10 @@ func vC02cast(root *vXElem, o vDecOpts, indent bool, cast bool) {
 func H_C02_roundtrip() {
 	ts := vTreeSpec{depth: vP("depth", 1, 2), maxKids: vP("kids", 2, 2), maxAttrs: vP("attrs", 1, 1), nameAlpha: "ab", attrAlpha: "ab", textAlpha: "x", textMax: 1, valMin: 1}
 	root := vNondetElem(ts, ts.depth)
+	if vChoose(2) == 1 {
+		XmlGoEmptyElemSyntax() // <a></a> instead of <a/>: the same Map comes back
+		defer XmlDefaultEmptyElemSyntax()
+	}
 	vC02(root, vDecOpts{attrPrefix: "-", textKey: "#text"}, vChoose(2) == 1)
 }
 
